@@ -44,6 +44,9 @@ func main() {
 	if viewAll.N > 0 {
 		meta.GoOnly = append(meta.GoOnly, viewAll)
 	}
+	if orderAll.N > 0 {
+		meta.GoOnly = append(meta.GoOnly, orderAll)
+	}
 	if sizeAll.N > 0 {
 		meta.GoOnly = append(meta.GoOnly, sizeAll)
 	}
